@@ -12,6 +12,8 @@
 
    Two domains in which the UNCHANGED tree does not preserve (known findings, kept narrow):
      kf_widening v   a column with a null and an integer of magnitude > 2^53, pandas on the route      (values)
+                     (kf_widening_exact: ... and an integer that is not representable -- the exact set, see
+                      C14val_roundtrip_preserved_iff)
      kf_empty v      >= 1 column and 0 rows, list-of-dicts as the target                              (column names)
    For tables of ANY size. *)
 From Coq Require Import List Bool Arith ZArith String SpecFloat.
@@ -67,6 +69,37 @@ Theorem C14val_roundtrip_partial_exact : forall a b x, a <> b -> valid_of a x = 
   valid_of a (conv b a (conv a b x)) = true /\ pres (view_of x) (view_of (conv b a (conv a b x))) = true.
 Proof. exact roundtrip_l. Qed.
 Print Assumptions C14val_roundtrip_partial_exact.
+
+(* EXACT CHARACTERISATION.  Outside the empty-table domain every round trip is preserved IF AND ONLY IF the table is outside
+   the sharp loss domain of its route -- so kf_route_exact is not merely sufficient, it is the set of tables the unchanged
+   tree damages (in the model) *)
+Theorem C14val_roundtrip_preserved_iff : forall a b x, a <> b -> valid_of a x = true ->
+  (b = FDict -> kf_empty (view_of x) = false) ->
+  (pres (view_of x) (view_of (conv b a (conv a b x))) = true <-> kf_route_exact a b (view_of x) = false).
+Proof. exact roundtrip_iff_l. Qed.
+Print Assumptions C14val_roundtrip_preserved_iff.
+
+Theorem C14val_forward_preserved_iff : forall a b x, a <> b -> valid_of a x = true ->
+  (b = FDict -> kf_empty (view_of x) = false) ->
+  (pres (view_of x) (view_of (conv a b x)) = true <-> (to_pandas b && kf_widening_exact (view_of x)) = false).
+Proof. exact forward_iff_l. Qed.
+Print Assumptions C14val_forward_preserved_iff.
+
+(* ... because what a round trip does is known exactly: up to null/NaN (`same`) the result is the source view itself, or,
+   when pandas is on the route, the source view with every integer of every column that contains a null replaced by its
+   double (widened_view) -- inside the loss domain too *)
+Theorem C14val_roundtrip_is_widening : forall a b x, a <> b -> valid_of a x = true ->
+  (b = FDict -> kf_empty (view_of x) = false) ->
+  valid_of a (conv b a (conv a b x)) = true /\
+  same (expected (uses_pandas a b) (view_of x)) (view_of (conv b a (conv a b x))) = true.
+Proof. exact roundtrip_same_l. Qed.
+Print Assumptions C14val_roundtrip_is_widening.
+
+Theorem C14val_forward_is_widening : forall a b x, a <> b -> valid_of a x = true ->
+  (b = FDict -> kf_empty (view_of x) = false) ->
+  valid_of b (conv a b x) = true /\ same (expected (to_pandas b) (view_of x)) (view_of (conv a b x)) = true.
+Proof. exact forward_same_l. Qed.
+Print Assumptions C14val_forward_is_widening.
 
 Theorem C14val_kf_domains_nested : forall a b v, kf_route a b v = false -> kf_route_exact a b v = false.
 Proof. exact kf_route_exact_in. Qed.
